@@ -13,6 +13,8 @@ import (
 	"time"
 )
 
+var lastStderr string
+
 type replayDoc struct {
 	Property string          `json:"property"`
 	World    string          `json:"world"`
@@ -36,6 +38,7 @@ func decodeNum(raw []byte) (any, error) {
 // violation of the wanted oracle class occurred.
 func tryScenario(bin, id string, p *Prop, raw json.RawMessage, wantOracle string, wantDec, wantLog bool) (bool, *Reply) {
 	res := runWorker(bin, &Request{Prop: id, Mode: "replay", Scenario: raw, WantDec: wantDec, WantLog: wantLog, WantSc: false}, time.Duration(p.RunTimeoutS+60)*time.Second)
+	lastStderr = res.stderr
 	if len(res.replies) == 0 {
 		if wantOracle == "process_panic" && strings.Contains(res.stderr, "panic:") && grpcFrame(res.stderr) {
 			return true, &Reply{Outcome: &Outcome{Panic: tail(res.stderr, 8000), Viol: []Violation{{Oracle: "process_panic", Msg: panicLine(res.stderr)}}}}
@@ -501,6 +504,9 @@ func replayFile(path string) int {
 		if r.Outcome.Panic != "" {
 			fmt.Println(r.Outcome.Panic)
 		}
+	}
+	if os.Getenv("SIM_GRPCLOG") != "" {
+		fmt.Println(lastStderr)
 	}
 	if ok {
 		same := r.Outcome.Viol[0].Seq == doc.Expect.Seq && r.Outcome.Viol[0].Msg == doc.Expect.Msg
